@@ -389,6 +389,38 @@ def run_history(kind, hist, seed):
                         d[k] = v
                 if viol:
                     return
+            elif op[0] == "pair_same":
+                # the SAME key of the per-instance cache asked for twice in one yield (two spellings): on a miss both
+                # bodies run, each call gets its own body's result, the later finisher's stays cached
+                _, iname, k1, sp1, sp2 = op
+                k1 = tuple(k1)
+                if iname not in insts:
+                    insts[iname] = K()
+                env.block = True
+                env.fail_next = False
+                d = pmodel.setdefault(iname, {})
+                hit = k1 in d
+                nexec = len(env.execs)
+                a1, kw1 = spell(k1, sp1)
+                a2, kw2 = spell(k1, sp2)
+                t1, t2 = insts[iname].m.asynq(*a1, **kw1), insts[iname].m.asynq(*a2, **kw2)
+                done = []
+                t1.on_computed.subscribe(lambda _t: done.append(0))
+                t2.on_computed.subscribe(lambda _t: done.append(1))
+                vs = yield t1, t2
+                stats["parallel"] += 1
+                stats["overlapping_misses_of_one_key_per_instance"] = stats.get("overlapping_misses_of_one_key_per_instance", 0) + (0 if hit else 1)
+                ran = len(env.execs) - nexec
+                if hit:
+                    if ran != 0 or vs[0] != d[k1] or vs[1] != d[k1]:
+                        viol.append(("hit-returned-wrong-value", {"op": op, "executions": ran, "expected": d[k1], "observed": repr(vs)[:120]}))
+                        return
+                else:
+                    fresh = [tokval("m", t) for (n, na, t) in env.execs[nexec:]]
+                    if ran != 2 or [vs[0], vs[1]] != fresh:
+                        viol.append(("miss-returned-wrong-value", {"op": op, "executions": ran, "bodies_produced": repr(fresh)[:120], "observed": repr(vs)[:120]}))
+                        return
+                    d[k1] = fresh[done[-1]]
             elif op[0] == "drop":
                 iname = op[1]
                 if iname in insts:
@@ -585,6 +617,8 @@ def make_history(rnd, kind):
         elif kind == "per_instance" and r < 0.17 and len(keys) >= 2:
             k1, k2 = rnd.sample(keys, 2)
             ops.append(["pair", iname, list(k1), list(k2), rnd.randrange(6), rnd.randrange(6)])
+        elif kind == "per_instance" and r < 0.25:
+            ops.append(["pair_same", iname, list(rnd.choice(keys)), rnd.randrange(6), rnd.randrange(6)])
         elif kind.startswith("lru") and r < 0.12:
             calls = [[list(rnd.choice(keys)), rnd.randrange(6)] for _ in range(rnd.randint(2, 4))]
             if rnd.random() < 0.5:
@@ -643,7 +677,7 @@ def run_unit(unit, progress):
 
 def reach(c, tier):
     out = []
-    for k in ["histories_" + k for k in KINDS] + ["hits", "misses", "evictions", "raises", "spelling_pairs", "gc_checks", "parallel", "recomputes", "gathers", "gathers_with_overlapping_misses_of_one_key", "dirty_while_refresh_in_flight", "stale_refresh_finishing_after_a_newer_one"]:
+    for k in ["histories_" + k for k in KINDS] + ["hits", "misses", "evictions", "raises", "spelling_pairs", "gc_checks", "parallel", "recomputes", "gathers", "gathers_with_overlapping_misses_of_one_key", "dirty_while_refresh_in_flight", "stale_refresh_finishing_after_a_newer_one", "overlapping_misses_of_one_key_per_instance"]:
         if not c.get(k):
             out.append("%s is zero" % k)
     return out
